@@ -14,8 +14,12 @@
    plus every in-edge joined with the out-edge leaving on the port it arrived on
    (C20_remove_module_boundary_preserves_wiring), and no edge mentions the boundary afterwards;
    the sequential model [merge_mbs] is compared with every real merge_modules result.
-   NOT proved: the multi-boundary composition as one end-to-end statement, and anything about
-   serde_json -- those are decided per run by the executable comparison [same_dataflow_b]
+   and the multi-boundary statement, by induction on the list of boundaries with the single-step
+   lemma: merge_modules over any list of distinct boundaries yields exactly the end-to-end
+   connections of the original graph through them, matched port by port
+   (C20_merge_modules_preserves_wiring; [conn_p]/[route_p]).  The general multi-step contraction
+   theorem for unary nodes is C20_eliminate_preserves_wiring (induction on the list of removed nodes).
+   NOT proved: anything about serde_json -- those are decided per run by the executable comparison [same_dataflow_b]
    (end-to-end wiring through the removed nodes = wiring of the result, surviving nodes
    untouched) and [graph_eqb] on the real before/after graphs (props/C20.py). *)
 From Coq Require Import List String NArith Bool.
@@ -51,6 +55,19 @@ Proof.
   intros es m k es' H. split; [exact (remove_mb_preserves_conn es m k es' H)|exact (remove_mb_no_m es m k es' H)].
 Qed.
 Print Assumptions C20_remove_module_boundary_preserves_wiring.
+
+Theorem C20_merge_modules_preserves_wiring : forall (ms : list N) (es : list edge) (k : N) (es' : list edge),
+  NoDup ms -> merge_mbs es ms k = MbOk es' ->
+  forall w, In w (map wire_of es') <-> conn_p es ms w.
+Proof. exact merge_mbs_preserves_wiring. Qed.
+Print Assumptions C20_merge_modules_preserves_wiring.
+
+(* non-vacuity: two chained boundaries 8 and 9 are both merged *)
+Example C20_merge_modules_example :
+  NoDup [8; 9] /\
+  merge_mbs [mkEdge 1 1 8 PElided (PPath "a"); mkEdge 2 8 9 (PPath "a") (PInt false 0); mkEdge 3 9 3 (PInt false 0) (PPath "pos")] [8; 9] 20
+  = MbOk [mkEdge 21 1 3 PElided (PPath "pos")].
+Proof. split; [repeat constructor; simpl; intuition discriminate|vm_compute; reflexivity]. Qed.
 
 (* non-vacuity: a two-port boundary 9 (ports 0 and 1) joins port-wise; mismatched ports are an Err *)
 Example C20_module_boundary_example :
